@@ -94,7 +94,7 @@ theorem pump_deliveries (fuel : Nat) (s : St) :
           obtain ⟨D, h1, h2, h3, h4, h5⟩ := ih { s with held := none }
           exact ⟨D, h1, h2, h3, h4, fun _ => hl⟩
         · rw [if_neg hk]
-          by_cases hbad : k ∈ s.undecodable
+          by_cases hbad : s.decodable b = false
           · rw [if_pos hbad]
             obtain ⟨D, h1, h2, h3, h4, _⟩ := ih { s with held := none, dropped := s.dropped ++ [(k, b)] }
             exact ⟨D, h1, h2, h3, h4, fun _ => hl⟩
@@ -212,7 +212,7 @@ theorem run_deliveries (s : St) (seg : List Op)
 structure Keep (s t : St) : Prop where
   mr : t.maxRetries = s.maxRetries
   dropped : t.dropped = s.dropped
-  und : t.undecodable = s.undecodable
+  und : t.decodable = s.decodable
 
 theorem Keep.rfl' (s : St) : Keep s s := ⟨rfl, rfl, rfl⟩
 theorem Keep.trans' {a b c : St} (h2 : Keep b c) (h1 : Keep a b) : Keep a c :=
@@ -258,13 +258,13 @@ theorem keep_offerHwm (s : St) (n : Nat) : Keep s (offerHwm s n) := by
   · split <;> exact ⟨rfl, rfl, rfl⟩
   · exact keep_followerHwm s n
 
-@[simp] theorem flush_und (s : St) : (flushBatcher s).undecodable = s.undecodable := (keep_flush s).und
-@[simp] theorem applyEntry_und (s : St) (e : Entry) : (applyEntry s e).undecodable = s.undecodable := (keep_applyEntry s e).und
-@[simp] theorem foldl_applyEntry_und (L : List Entry) (s : St) : (L.foldl applyEntry s).undecodable = s.undecodable :=
+@[simp] theorem flush_und (s : St) : (flushBatcher s).decodable = s.decodable := (keep_flush s).und
+@[simp] theorem applyEntry_und (s : St) (e : Entry) : (applyEntry s e).decodable = s.decodable := (keep_applyEntry s e).und
+@[simp] theorem foldl_applyEntry_und (L : List Entry) (s : St) : (L.foldl applyEntry s).decodable = s.decodable :=
   (keep_foldl_applyEntry L s).und
-@[simp] theorem foldl_followerHwm_und (l : List Nat) (s : St) : (l.foldl followerHwm s).undecodable = s.undecodable :=
+@[simp] theorem foldl_followerHwm_und (l : List Nat) (s : St) : (l.foldl followerHwm s).decodable = s.decodable :=
   (keep_foldl_followerHwm l s).und
-@[simp] theorem offerHwm_und (s : St) (n : Nat) : (offerHwm s n).undecodable = s.undecodable := (keep_offerHwm s n).und
+@[simp] theorem offerHwm_und (s : St) (n : Nat) : (offerHwm s n).decodable = s.decodable := (keep_offerHwm s n).und
 @[simp] theorem flush_mr (s : St) : (flushBatcher s).maxRetries = s.maxRetries := (keep_flush s).mr
 @[simp] theorem flush_dr (s : St) : (flushBatcher s).dropped = s.dropped := (keep_flush s).dropped
 @[simp] theorem applyEntry_mr (s : St) (e : Entry) : (applyEntry s e).maxRetries = s.maxRetries := (keep_applyEntry s e).mr
@@ -286,7 +286,7 @@ theorem keep_stepCore (s : St) (op : Op) : Keep s (stepCore s op) := by
   · cases op <;> simp only [stepCore] <;> (repeat' split) <;> simp
   · cases op <;> simp only [stepCore] <;> (repeat' split) <;> simp
 
-theorem pump_no_drop (fuel : Nat) (s : St) (h : s.maxRetries = 0) (hu : s.undecodable = []) :
+theorem pump_no_drop (fuel : Nat) (s : St) (h : s.maxRetries = 0) (hu : ∀ b, s.decodable b = true) :
     Keep s (pump fuel s) := by
   induction fuel generalizing s with
   | zero => exact Keep.rfl' s
@@ -298,7 +298,7 @@ theorem pump_no_drop (fuel : Nat) (s : St) (h : s.maxRetries = 0) (hu : s.undeco
       · split
         · exact Keep.trans' (ih _ h hu) ⟨rfl, rfl, rfl⟩
         · split
-          · rename_i hbad; rw [hu] at hbad; exact absurd hbad (by simp)
+          · rename_i hbad; rw [hu] at hbad; cases hbad
           · split
             · exact Keep.trans' (ih _ h hu) ⟨rfl, rfl, rfl⟩
             · split
@@ -312,7 +312,7 @@ theorem pump_no_drop (fuel : Nat) (s : St) (h : s.maxRetries = 0) (hu : s.undeco
 
 /-- with `transmitMaxRetries` unset and every stored item decodable no event is ever given up on -/
 theorem run_no_drop (s : St) (ops : List Op) (h : s.maxRetries = 0) (hd : s.dropped = [])
-    (hu : s.undecodable = []) :
+    (hu : ∀ b, s.decodable b = true) :
     (run s ops).dropped = [] ∧ (run s ops).maxRetries = 0 := by
   induction ops generalizing s with
   | nil => exact ⟨hd, h⟩
